@@ -146,10 +146,13 @@ class TD:
 
 
 class TZ:
-    __slots__ = ("kind", "key_")
+    """A tzinfo object.  flavour: which library made it ('zoneinfo', 'pytz') or
+    'plain' for one supplied by the caller (datetime.timezone, a ZoneInfo, ...):
+    only pytz zones have localize()/normalize()."""
+    __slots__ = ("kind", "key_", "flavour")
 
-    def __init__(self, kind, key_=None):
-        self.kind, self.key_ = kind, key_
+    def __init__(self, kind, key_=None, flavour=None):
+        self.kind, self.key_, self.flavour = kind, key_, flavour
 
     def __repr__(self):
         return f"<tz {self.kind} {self.key_}>"
@@ -261,6 +264,14 @@ class RegexVal:
 class MatchVal:
     def __init__(self, m):
         self.m = m
+
+
+class FromKeys(list):
+    """dict.fromkeys(iterable): iterating / list() gives the distinct keys in first-seen order."""
+
+    def __init__(self, keys, value):
+        super().__init__(keys)
+        self.value = value
 
 
 class Unknown:
@@ -400,6 +411,7 @@ class Interp:
             *a[:3], **{{"fget": "get", "fset": "set", "fdel": "delete"}.get(kk, kk): vv
                       for kk, vv in k.items() if kk != "doc"}))
         n["set"] = Native("set", lambda i, a, k: set(self._as_list(a[0])) if a else set())
+        n["frozenset"] = Native("frozenset", lambda i, a, k: frozenset(self._as_list(a[0])) if a else frozenset())
         n["dict"] = Native("dict", self._dict_ctor)
         n["id"] = Native("id", lambda i, a, k: id(a[0]))
         n["abs"] = Native("abs", self._abs)
@@ -882,7 +894,16 @@ class Interp:
                     raise AbsRaise("AttributeError", f"'datetime.date' object has no attribute {name!r}")
                 return ("field", name)
             if name == "utcoffset":
-                return Native("utcoffset", lambda i, a, k: Unknown("utcoffset"))
+                def utcoffset(i, a, k, o=o):
+                    if not o.is_datetime:
+                        raise AbsRaise("AttributeError", "'datetime.date' object has no attribute 'utcoffset'")
+                    if o.kind == "naive":
+                        return None
+                    if o.kind == "utc" or (o.zone or "").startswith("ZeroOffset"):
+                        return TD(term={}, secs=0)
+                    # some other zone: a non-zero offset of less than a day
+                    return TD(term={"utcoffset": 1}, mag="subday")
+                return Native("utcoffset", utcoffset)
             raise Unsupported(f"attribute {name} of a date/datetime")
         if isinstance(o, TD):
             self.ops_seen.add(f"timedelta.{name}")
@@ -916,11 +937,15 @@ class Interp:
                     if name == "zone":
                         return o.key_
                     if name == "localize":
+                        # re-reading a wall clock with a stale offset in the zone moves the instant
                         return Native("tz.localize", lambda i, a, k, o=o: a[0].with_(
                             kind="utc" if o.kind == "utc" else "zoned",
-                            zone=None if o.kind == "utc" else o.key_))
-                    # normalize() may move the wall clock (DST gaps): a new value
-                    return Native("tz.normalize", lambda i, a, k: a[0].with_(tag="pytz-normalized"))
+                            zone=None if o.kind == "utc" else o.key_,
+                            tag="instant-moved" if a[0].tag == "pytz-stale-offset" else a[0].tag))
+                    # normalize() repairs the wall clock after arithmetic (same instant); on any
+                    # other value it may move the wall clock (DST gaps): a new value
+                    return Native("tz.normalize", lambda i, a, k: a[0].with_(
+                        tag=None if a[0].tag == "pytz-stale-offset" else "pytz-normalized"))
                 raise AbsRaise("AttributeError", name)
             if name == "key":
                 return o.key_
@@ -940,6 +965,16 @@ class Interp:
         if isinstance(o, TypeTok):
             if name in ("__name__", "__qualname__"):
                 return o.name
+            if o.name == "dict" and name == "fromkeys":
+                def fromkeys(i, a, k):
+                    out = {}
+                    for x in self._as_list(a[0]):
+                        kk = self._memo_key(x)
+                        if kk not in out:
+                            out[kk] = x
+                    # keys compare by Python equality/hash (True == 1, 'a' == vText('a'))
+                    return FromKeys(list(out.values()), a[1] if len(a) > 1 else None)
+                return Native("dict.fromkeys", fromkeys)
             raise Unsupported(f"attribute {name} of builtin type {o.name}")
         if isinstance(o, Obj):
             return self._obj_attr(o, name)
@@ -1394,7 +1429,7 @@ class Interp:
             if name == "localize":
                 return Native("tzp.localize", self._localize)
             if name == "timezone":
-                return Native("tzp.timezone", lambda i, a, k: TZ("zone", self._str(a[0])))
+                return Native("tzp.timezone", lambda i, a, k: TZ("zone", self._str(a[0]), self.provider))
             if name in ("uses_pytz",):
                 return Native(name, lambda i, a, k: self.provider == "pytz")
             raise Unsupported(f"tzp.{name}")
@@ -1454,7 +1489,10 @@ class Interp:
     def _localize(self, i, a, k):
         x, tz = a
         if isinstance(tz, str):
-            tz = TZ("zone", tz)
+            tz = TZ("zone", tz, self.provider)
+        # the pytz provider localizes through tz.localize(dt): only pytz zones have it
+        if self.provider == "pytz" and isinstance(tz, TZ) and tz.flavour == "plain":
+            raise AbsRaise("AttributeError", "tzinfo object has no attribute 'localize'")
         if isinstance(x, DT) and isinstance(tz, TZ):
             return x.with_(kind="utc" if tz.kind == "utc" else "zoned",
                            zone=None if tz.kind == "utc" else tz.key_)
@@ -1678,8 +1716,12 @@ class Interp:
         if rank is not None and td.mag != "zero":
             # abstract durations are positive: the result is strictly later/earlier
             rank = rank + (0.5 if sign > 0 else -0.5)
-        return DT(d.kind, rank, term, d.zone,
-                  tag=d.tag if d.tag == "seconds-dropped" else None)
+        tag = d.tag if d.tag == "seconds-dropped" else None
+        if tag is None and self.provider == "pytz" and d.kind == "zoned" and td.mag != "zero":
+            # pytz: arithmetic keeps the old fixed offset - the instant is right, the
+            # wall clock may be off by a DST delta until tz.normalize() is applied
+            tag = "pytz-stale-offset"
+        return DT(d.kind, rank, term, d.zone, tag=tag)
 
     # ---- calls -------------------------------------------------------------
     def call(self, f, args, kwargs):
